@@ -274,6 +274,9 @@ func (w *world) reset(f []string) string {
 		w.cancel = cancel
 		w.rc = cluster.NewRaftCluster(ctx, "", 1, nil, nil, nil)
 		w.rc.InitCluster(mockid.NewIDAllocator(), w.opt, w.storage, core.NewBasicCluster())
+		if err := w.storage.SaveMeta(&metapb.Cluster{Id: 1}); err != nil { // LoadClusterInfo wants it
+			panic(err)
+		}
 	case "srv":
 		w.useSrv = true
 		if w.srv == nil {
@@ -553,11 +556,34 @@ func (w *world) exec1(op string) string {
 	case f[0] == "rmtomb" && len(f) == 2:
 		arm(f[1])
 		return classify(w.rc.RemoveTombStoneRecords())
+	case f[0] == "restart" && len(f) == 1:
+		// a new leader: a fresh RaftCluster and cache on the same storage and options, filled by LoadClusterInfo
+		if w.useSrv || w.gated {
+			return bad
+		}
+		if w.cancel != nil {
+			w.cancel()
+		}
+		ctx, cancel := context.WithCancel(context.Background())
+		w.cancel = cancel
+		rc := cluster.NewRaftCluster(ctx, "", 1, nil, nil, nil)
+		rc.InitCluster(mockid.NewIDAllocator(), w.opt, w.storage, core.NewBasicCluster())
+		c, err := rc.LoadClusterInfo()
+		if err != nil || c == nil {
+			return "err:load-cluster-info"
+		}
+		w.rc = rc
+		return "ok"
 	case f[0] == "region" && len(f) >= 3:
 		rid := u64(f[1])
 		var peers []*metapb.Peer
 		for i, s := range f[2:] {
-			peers = append(peers, &metapb.Peer{Id: rid*100 + uint64(i) + 1, StoreId: u64(s)})
+			// a trailing L: learner peer (never the first peer, which is the leader)
+			p := &metapb.Peer{Id: rid*100 + uint64(i) + 1, StoreId: u64(strings.TrimSuffix(s, "L"))}
+			if strings.HasSuffix(s, "L") && i > 0 {
+				p.Role = metapb.PeerRole_Learner
+			}
+			peers = append(peers, p)
 		}
 		w.conf++
 		r := &metapb.Region{Id: rid, StartKey: []byte(fmt.Sprintf("%06d", rid)), EndKey: []byte(fmt.Sprintf("%06d", rid+1)),
